@@ -154,6 +154,9 @@ abbrev Tag := String
 structure TReg where
   mro : List (String × List String) := []           -- type ↦ its MRO (itself first), as Python computed it
   entries : List ((String × String) × Tag) := []    -- (type, op) ↦ handler, newest first
+  nodefault : List (String × String) := []          -- (exact type, op) with no built-in handler (`keys` of an
+                                                    -- object without `__dict__`): the lookup raises unless a
+                                                    -- type of the MRO is registered for `op`
 
 def autoOps : List String := ["get", "iterate"]
 
@@ -183,11 +186,80 @@ def firstRegistered (entries : List ((String × String) × Tag)) (op : String) :
 
 def TReg.mroOf (r : TReg) (ty : String) : List String := (assocGet r.mro ty).getD [ty]
 
-/-- the uncached lookup: nearest registered type in the MRO, else `object`'s default handler -/
+/-- the uncached lookup: nearest registered type in the MRO, else the built-in handler (`getattr`,
+    `iter`, `_ObjStyleKeys.get_keys`) when the type has one, else UnregisteredTarget (`none`) -/
 def TReg.compute (r : TReg) (key : String × String) : Option Tag :=
   match firstRegistered r.entries key.2 (r.mroOf key.1) with
   | some h => some h
-  | none => some "default"
+  | none => if r.nodefault.contains key then none else some "default"
+
+/-! ### wildcard traversal: the handler lookups of `_extend_children`
+
+  `*` / `**` (`'a.*'`, `'**'`, `T.__star__()`, `T.__starstar__()`) expand every visited container
+  with
+      try:    keys = get_handler('keys', item); get = get_handler('get', item)
+      except UnregisteredTarget:
+          try:    iterate = get_handler('iterate', item)
+          except UnregisteredTarget: pass                      -- no children
+          else:   children.extend(iterate(item))
+      else:   for key in keys(item): children.append(get(item, key))
+  i.e. per visited item up to three lookups in the registry of the call, the later ones depending
+  on the answers to the earlier ones.  As a call it is the strategy `starStrategy rg tys` (`tys` =
+  the exact types of the visited items, in visiting order); its outcome is the way the children of
+  every item were reached. -/
+
+/-- how the children of one item are reached -/
+inductive StarUse (H : Type) where
+  | keysGet (keys get : H)      -- `for key in keys(item): children.append(get(item, key))`
+  | iter (h : H)                -- `children.extend(iterate(item))`
+  | leaf                        -- neither: the item has no children
+  deriving DecidableEq, Repr
+
+inductive StarPhase (H : Type) where
+  | keys | get (k : H) | iterate
+
+/-- where a wildcard traversal is: the items still to expand, the lookup it is at for the first of
+    them, and what it has found so far (newest first) -/
+structure StarSt (H : Type) where
+  todo : List String
+  phase : StarPhase H
+  acc : List (StarUse H)
+
+def starOut (rg : Nat) : StarSt H → Sum Query (List (StarUse H))
+  | ⟨[], _, acc⟩ => .inr acc.reverse
+  | ⟨ty :: _, .keys, _⟩ => .inl (.handler rg ty "keys")
+  | ⟨ty :: _, .get _, _⟩ => .inl (.handler rg ty "get")
+  | ⟨ty :: _, .iterate, _⟩ => .inl (.handler rg ty "iterate")
+
+def starStep : StarSt H → Answer P H → StarSt H
+  | ⟨ty :: rest, .keys, acc⟩, .handler (some k) => ⟨ty :: rest, .get k, acc⟩
+  | ⟨ty :: rest, .keys, acc⟩, .handler none => ⟨ty :: rest, .iterate, acc⟩
+  | ⟨_ :: rest, .get k, acc⟩, .handler (some g) => ⟨rest, .keys, .keysGet k g :: acc⟩
+  | ⟨ty :: rest, .get _, acc⟩, .handler none => ⟨ty :: rest, .iterate, acc⟩
+  | ⟨_ :: rest, .iterate, acc⟩, .handler (some i) => ⟨rest, .keys, .iter i :: acc⟩
+  | ⟨_ :: rest, .iterate, acc⟩, .handler none => ⟨rest, .keys, .leaf :: acc⟩
+  | s, _ => s
+
+/-- the wildcard call over items of exact types `tys` through registry `rg` -/
+def starStrategy (rg : Nat) (tys : List String) : Strategy P H (List (StarUse H)) := fun answers =>
+  starOut rg (answers.foldl starStep ⟨tys, .keys, []⟩)
+
+/-- a wildcard call asks at most three lookups per item -/
+def starFuel (tys : List String) : Nat := 3 * tys.length + 1
+
+/-- the same without a memo, written as the code reads: what `_extend_children` uses for an item
+    of exact type `ty` when every lookup is computed from the registrations -/
+def childUse (compute : String × String → Option H) (ty : String) : StarUse H :=
+  match compute (ty, "keys") with
+  | some k =>
+    match compute (ty, "get") with
+    | some g => .keysGet k g
+    | none => match compute (ty, "iterate") with
+      | some i => .iter i
+      | none => .leaf
+  | none => match compute (ty, "iterate") with
+    | some i => .iter i
+    | none => .leaf
 
 /-! ### `Vars` / `ScopeVars` on a heap of dict objects
 
